@@ -223,6 +223,46 @@ def gen_segment(rng):
     return 'arc', [s, complex(rx, ry), float(rot), la, sw, e], 'ratio<=%d' % (1 if ratio == 1 else 3 if ratio <= 3 else 30 if ratio <= 30 else 100), []
 
 
+def collinear_corpus(seed, nrandom):
+    """EXACTLY collinear quadratics (integer / dyadic control points, so that
+    a.real*b.imag == a.imag*b.real holds in binary64): control between start and midpoint,
+    between midpoint and end, == start, == end, beyond the ends (fold-back); axis-parallel and oblique;
+    scaled by powers of two; full interval and sub-intervals.  Deterministic part first, then nrandom
+    random ones from an OWN rng stream (the main stream is not touched).  The speed of such a curve is
+    not constant: on a sub-interval the length is NOT |end - start| (t1 - t0)."""
+    rng = common.mkrng(seed, 'C06-collinear')
+    ks = [(1, 4), (3, 4), (0, 1), (1, 1), (0, 4), (4, 4), (1, 8), (7, 8),      # no turning point
+          (5, 4), (-1, 4), (3, 1), (2, 0), (-2, -1)]                          # fold-back
+    out = []
+
+    def add(p0, d, k1, k2, scale):
+        pts = [p0 * scale, (p0 + d * k1) * scale, (p0 + d * k2) * scale]
+        if pts[0] == pts[1] == pts[2]:
+            return
+        D0, D1 = k1, k2 - k1                       # 1-D derivative (1-t) D0 + t D1 (times 2 d)
+        fold = D0 * D1 < 0
+        zs = [D0 / (D0 - D1)] if fold else ([0.0] if D0 == 0 else [1.0] if D1 == 0 else [])
+        out.append(('quad', pts, 'collinear-exact-fold' if fold else 'collinear-exact', zs))
+    for i, (k1, k2) in enumerate(ks):
+        d = [1 + 0j, 1j, 1 + 1j, 2 + 1j, -3 + 2j][i % 5]
+        p0 = [0j, 0j, 1 + 1j, 2j, -5 + 3j][i % 5]
+        add(p0, d, k1, k2, [1.0, 1.0, 2.0 ** -10, 2.0 ** 7, 0.5][i % 5] if i >= 5 else 1.0)
+    add(0j, 1 + 0j, 1, 4, 1.0); add(0j, 1 + 0j, 0, 1, 1.0); add(1 + 1j, 1 + 1j, 1, 4, 1.0); add(2j, 2 + 1j, 1, 4, 1.0)   # seeded/C06_1/demo
+    fixed = len(out)
+    while len(out) < fixed + nrandom:
+        d = complex(rng.randint(-6, 6), rng.randint(-6, 6))
+        if d == 0:
+            continue
+        add(complex(rng.randint(-9, 9), rng.randint(-9, 9)), d, rng.randint(-8, 16) / rng.choice([1, 2, 4]),
+            rng.randint(-8, 16) / rng.choice([1, 2, 4]), 2.0 ** rng.randint(-12, 8))
+    todo = []
+    for j, (kind, pts, sub, zs) in enumerate(out):
+        ivs = [(0.0, 1.0), (0.0, 0.3), (0.3, 0.9), (0.1, 0.2)] if j < fixed else \
+              [(0.0, 1.0), tuple(sorted((rng.uniform(0, 1), rng.uniform(0, 1))))]
+        todo.append((kind, pts, sub, ivs))
+    return todo
+
+
 def gen_intervals(rng, special):
     iv = [(0.0, 1.0)]
     inside = [z for z in special if 0 < z < 1]
@@ -591,6 +631,8 @@ def run(rep, tier, seed, replay=None):
                 if sub == 'midpoint-on-chord':
                     ivs = [(0.0, 1.0), (0.25, 0.75), ivs[-1]]
                 todo.append((kind, params, sub, ivs))
+            # exactly collinear quadratics always run first (own rng stream; the list above is unchanged)
+            todo = collinear_corpus(seed, 30 if quick else 200) + todo
 
         dist, cases = {}, []
         T_START = time.time()
